@@ -206,9 +206,9 @@ def awsReadkeys : List Stmt := [
   .cond "p == NULL" "err3",
   .call "" "strcmp" ["buf", "\"\""] (some "err2"),
   .call "" "strcmp" ["buf", "\"\""] none,
-  .call "secretlen" "strlen" ["p"] none,
-  .cond "*key_secret != NULL" "err2",
-  .call "*key_secret" "strdup" ["p"] (some "err2"),
+  .call "" "warn0" ["\"\""] none,
+  .goto "err2",
+  .call "*key_secret" "strdup" ["p"] none,
   .call "" "ferror" ["f"] (some "err2"),
   .call "" "fclose" ["f"] (some "err1"),
   .cond "(*key_id == NULL) || (*key_secret == NULL)" "err1",
@@ -220,7 +220,7 @@ def awsReadkeys : List Stmt := [
   .call "" "warnp" ["\"\""] none,
   .label "err1",
   .call "" "free" ["*key_id"] none,
-  .call "" "insecure_memzero" ["*key_secret", "secretlen"] none,
+  .call "" "insecure_memzero" ["*key_secret", "strlen(*key_secret)"] none,
   .call "" "free" ["*key_secret"] none,
   .label "err0",
   .ret]
